@@ -17,6 +17,9 @@ use std::iter::once;
 pub(crate) struct KOpt<T> {
     adjacency: T,
     solutions: Vec<Path>,
+    /// All paths visited so far: a gain can be a floating point residue (e.g. ties in euclidean costs),
+    /// so without this memory the search can cycle between equally good paths forever.
+    visited: Vec<Path>,
 }
 
 impl<T> KOpt<T>
@@ -25,16 +28,18 @@ where
 {
     /// Creates a new instance of [KOpt].
     pub fn new(adjacency: T) -> Self {
-        KOpt { adjacency, solutions: Vec::default() }
+        KOpt { adjacency, solutions: Vec::default(), visited: Vec::default() }
     }
 
     /// Tries to optimize a given path using modified Lin-Kernighan-Helsgaun algorithm.
     /// Returns discovered solutions in the order of their improvement.
     pub fn optimize(mut self, path: Path) -> Vec<Path> {
+        self.visited.push(path.clone());
         self.solutions.push(path);
 
         while let Some(improved_path) = self.solutions.last().and_then(|p| self.improve(p.iter().copied())) {
             self.solutions.clear();
+            self.visited.push(improved_path.clone());
             self.solutions.push(improved_path);
         }
 
@@ -270,6 +275,6 @@ where
 
     /// Checks if the given path is already known.
     fn is_known_path(&self, path: &[Node]) -> bool {
-        self.solutions.iter().any(|p| p.iter().eq(path))
+        self.solutions.iter().chain(self.visited.iter()).any(|p| p.iter().eq(path))
     }
 }
